@@ -68,6 +68,11 @@ def lemmas(idx):
                     add(cfg, f, vs, args, st, ['(%s * (%s / k_un FSqrt %s))%%K' % (b[2], x, lsq) for x in A], 'clamp_length: too short -> min * self / length', hyps=[alg.cmp_hyp('FLt', lsq, lo, True)], tactic=alg.cond_tac())
                     add(cfg, f, vs, args, st, ['(%s * (%s / k_un FSqrt %s))%%K' % (c_[2], x, lsq) for x in A], 'clamp_length: too long -> max * self / length', hyps=[alg.cmp_hyp('FLt', lsq, lo, False), alg.cmp_hyp('FGt', lsq, hi, True)], tactic=alg.cond_tac())
                     add(cfg, f, vs, args, st, A, 'clamp_length: within bounds -> self', hyps=[alg.cmp_hyp('FLt', lsq, lo, False), alg.cmp_hyp('FGt', lsq, hi, False)], tactic=alg.cond_tac())
+                elif name == 'any_orthogonal_vector' and not ps and d == 3:
+                    vs = []; a = sym(structs, st, 'a', vs); x, y, z = [l[2] for l in tree_leaves(a)]
+                    c = alg.cmp_hyp('FGt', '(k_un FAbs %s)' % x, '(k_un FAbs %s)' % y, True); c2 = alg.cmp_hyp('FGt', '(k_un FAbs %s)' % x, '(k_un FAbs %s)' % y, False)
+                    add(cfg, f, vs, [tree_coq(a)], st, ['(- %s)%%K' % z, 'k0', x], 'any_orthogonal_vector, |x| > |y|: (-z, 0, x) = self x Y', hyps=[c], tactic=alg.cond_tac())
+                    add(cfg, f, vs, [tree_coq(a)], st, ['k0', z, '(- %s)%%K' % y], 'any_orthogonal_vector, otherwise: (0, z, -y) = self x X', hyps=[c2], tactic=alg.cond_tac())
                 elif name == 'move_towards' and len(ps) == 2 and tname(ps[0][1]) == tn and ps[1][1] == k:
                     vs = []; a = sym(structs, st, 'a', vs); b = sym(structs, st, 'b', vs); d_ = sym(structs, k, 'd', vs)
                     A = [l[2] for l in tree_leaves(a)]; Bv = [l[2] for l in tree_leaves(b)]; D = ['(%s - %s)%%K' % (y, x) for x, y in zip(A, Bv)]
